@@ -177,10 +177,16 @@ pub fn finish(property: &str, tier: Tier, started: Instant, mut rep: Report) -> 
         }
     }
     let mut idx = 0;
+    let mut per_key: BTreeMap<String, usize> = BTreeMap::new();
     for v in rep.violations.drain(..) {
         if known_hit.contains_key(&v.key) {
             continue;
         }
+        let n = per_key.entry(v.key.clone()).or_insert(0);
+        if *n >= 3 {
+            continue;
+        }
+        *n += 1;
         idx += 1;
         let path = root.join("replays").join(format!("{property}-{idx}.json"));
         let art = json!({
@@ -193,6 +199,18 @@ pub fn finish(property: &str, tier: Tier, started: Instant, mut rep: Report) -> 
         new_violations.push((v, path));
     }
 
+    for k in unknown_keys.keys() {
+        if !new_violations.iter().any(|(v, _)| &v.key == k) {
+            idx += 1;
+            let path = root.join("replays").join(format!("{property}-{idx}.json"));
+            let art = json!({"property": property, "key": k, "message": "violation counted, no artefact kept", "replay": Value::Null});
+            let _ = std::fs::write(&path, serde_json::to_string_pretty(&art).unwrap());
+            new_violations.push((
+                Violation { key: k.clone(), message: "violation counted, no artefact kept".into(), replay: Value::Null },
+                path,
+            ));
+        }
+    }
     let wall = started.elapsed().as_secs_f64();
     let n_viol: u64 = unknown_keys.values().sum();
     let mut coverage = Map::new();
